@@ -521,6 +521,9 @@ func (b *balancer) assignUnassignedAndInitGraph() {
 				continue
 			}
 			memberNums := topicPotentials[topicNum]
+			if n := len(memberNums); n > 0 && memberNums[n-1] == uint16(memberNum) {
+				continue // the member listed this topic twice
+			}
 			if cap(memberNums) == 0 {
 				memberNums = topicPotentialsBuf[:0:len(b.members)]
 				topicPotentialsBuf = topicPotentialsBuf[len(b.members):]
